@@ -949,3 +949,59 @@ for _f, _lo, _hi in (("f64", -342, 308), ("f32", -65, 38)):
         cases=_lemire_wrap_cases(_lo, _hi),
         violates=lambda args, out: int(out.split()[1]) < 0 and args[3] != 0,
         funcs=["lexical_parse_float::lemire::lemire::<%s>" % _f], timeout_s=120, feas_ms=40))
+
+
+# ------------------------------------------------------------------ slow-path digit cap (limits::f{32,64}_max_digits)
+def halfway_digits(b, p, emin):
+    """Exact maximum number of significant base-b digits of a halfway point (2m+1)*2^(e-1),
+    m < 2^p, e >= emin (the subnormal exponent), for an even radix b = 2^k*c, c odd > 1."""
+    k, c = 0, b
+    while c % 2 == 0:
+        c //= 2
+        k += 1
+    if c == 1 or k == 0:
+        return None
+    odd = (1 << (p + 1)) - 1
+    best = 0
+    for n in range(1, 2 - emin):
+        j = -(-n // k)
+        N = odd * c ** j * 2 ** (k * j - n)     # (odd * 2^-n) == N / b^j, N not divisible by b
+        d = 0
+        while N:
+            N //= b
+            d += 1
+        best = max(best, d)
+    return best
+
+
+def _max_digits_kernel(f, p, emin):
+    need = {b: halfway_digits(b, p, emin) for b in range(2, 37)}
+    none = (1 << 64) - 1
+
+    def negpost(vs, ret):
+        r, v = vs["radix"], ret.t
+        bad = []
+        for b in range(2, 37):
+            if need[b] is not None:
+                bad.append(z3.And(r == b, z3.Or(v == none, z3.ULT(v, z3.BitVecVal(need[b], 64)))))
+            elif b % 2 == 1:
+                bad.append(z3.And(r == b, v != none))
+        return z3.Or(bad)
+
+    def violates(args, out):
+        b, v = args[0], int(out)
+        if need.get(b) is not None:
+            return v == none or v < need[b]
+        return b % 2 == 1 and 2 <= b <= 36 and v != none
+
+    return ScalarKernel(
+        "max_digits_" + f, "max_digits_" + f, [("radix", "u32")],
+        "limits::%s_max_digits(radix): for every even non-power-of-two radix the cap is at least the exact maximum number of significant digits of a halfway "
+        "point (computed with big integers), for every odd radix it is None (byte-wise comparison instead of truncation)" % f,
+        pre=lambda vs: [z3.UGE(vs["radix"], z3.BitVecVal(2, 32)), z3.ULE(vs["radix"], z3.BitVecVal(36, 32))],
+        negpost=negpost, cases=lambda seed: [[b] for b in range(2, 37)], violates=violates,
+        funcs=["lexical_parse_float::limits::%s_max_digits" % f], timeout_s=60)
+
+
+register(_max_digits_kernel("f64", 53, -1074))
+register(_max_digits_kernel("f32", 24, -149))
